@@ -33,10 +33,25 @@ func VerifJSGetName(n int) {
 
 type jVarCollector struct {
 	vars []*js.Var
+	bare map[*js.Var]int // pending `var` declarators without initialiser: carry no use, come and go with hoisting
 }
 
 func (c *jVarCollector) Enter(n js.INode) js.IVisitor {
+	if d, ok := n.(*js.VarDecl); ok && d.TokenType == js.VarToken {
+		for _, be := range d.List {
+			if v, ok := be.Binding.(*js.Var); ok && be.Default == nil {
+				if c.bare == nil {
+					c.bare = map[*js.Var]int{}
+				}
+				c.bare[v]++ // all occurrences of a variable share one *js.Var: skip exactly one occurrence
+			}
+		}
+	}
 	if v, ok := n.(*js.Var); ok {
+		if c.bare[v] > 0 {
+			c.bare[v]--
+			return c
+		}
 		for v.Link != nil {
 			v = v.Link
 		}
@@ -266,4 +281,113 @@ func verifRenameDeep() {
 	out = s.use(out)
 	out = append(out, "}}}};"...)
 	verifRenameCheck(out)
+}
+
+// VerifJSRenameBlocks: one function with blocks nested three deep. Every block level optionally declares a lexical
+// (let/const) binding and uses it after the inner block; the innermost block declares one or two hoisted vars in one or
+// two statements; the function optionally declares further vars after the blocks; use counts vary (names are handed out
+// by frequency). Reaches the registration of hoisted vars in the intermediate block scopes.
+func VerifJSRenameBlocks(n int) {
+	out := []byte("x=function(){")
+	lex := []string{"", "", ""}
+	for lvl := 0; lvl < 3; lvl++ {
+		if lvl > 0 {
+			out = append(out, "if(p"...)
+			out = append(out, byte('0'+lvl))
+			out = append(out, "){"...)
+		}
+		switch vChoice("lex"+string(rune('0'+lvl)), 3) {
+		case 1:
+			lex[lvl] = "lexlong" + string(rune('a'+lvl))
+			out = append(append(append(out, "let "...), lex[lvl]...), "=h();"...)
+		case 2:
+			lex[lvl] = "lexlong" + string(rune('a'+lvl))
+			out = append(append(append(out, "const "...), lex[lvl]...), "=h();"...)
+		}
+	}
+	// innermost block: hoisted vars
+	switch vChoice("vars", 3) {
+	case 0:
+		out = append(out, "var hoistlonga=1;g(hoistlonga);"...)
+	case 1:
+		out = append(out, "var hoistlonga=1,hoistlongb=2;g(hoistlonga,hoistlongb);"...)
+	default:
+		out = append(out, "var hoistlonga=1;g(hoistlonga);var hoistlongb=2;g(hoistlongb,hoistlongb);"...)
+	}
+	for lvl := 2; lvl >= 0; lvl-- {
+		if lex[lvl] != "" {
+			out = append(append(append(out, "g("...), lex[lvl]...), ");"...)
+		}
+		if lvl > 0 {
+			out = append(out, '}')
+		}
+	}
+	switch vChoice("tail", 3) {
+	case 1:
+		out = append(out, "var taillong=4;return taillong"...)
+	case 2:
+		out = append(out, "var taillong=4;return taillong+taillong+taillong+taillong+taillong"...)
+	}
+	out = append(out, "};"...)
+	verifRenameCheck(out)
+}
+
+var verifWithParts = []string{
+	"var hlong={mlong(arglong){return arglong}};",
+	"class Clong{mlong(arglong){return arglong}}",
+	"var hlong={get plong(){var tlong=1;return tlong}};",
+	"var hlong={set plong(arglong){g(arglong)}};",
+	"try{k()}catch(errlong){with(o){g(errlong)}}",
+	"for(let ilong of o){with(o){g(ilong)}}",
+	"{let blong=1;with(o){g(blong)}}",
+	"switch(o){case 1:let slong=2;with(o){g(slong)}}",
+	"h(function(qlong){return qlong});",
+	"h((qlong)=>{return qlong});",
+	"with(o){g(vlong)}",
+}
+
+// VerifJSRenameWith: a function that contains `with`, built from three parts out of 11 (methods, getters, setters,
+// classes, nested functions and arrows without `with`; catch / for / block / switch scopes with `with`): every name of
+// the with-function's own scopes is emitted unchanged whatever precedes it.
+func VerifJSRenameWith(n int) {
+	out := []byte("x=function(o){var vlong=1;")
+	var ks [3]int
+	for i := 0; i < 3; i++ {
+		ks[i] = vChoice("part"+string(rune('0'+i)), len(verifWithParts))
+		out = append(out, verifWithParts[ks[i]]...)
+	}
+	vAssume(ks[0] != ks[1] && ks[0] != ks[2] && ks[1] != ks[2]) // no redeclared class
+	out = append(out, "};"...)
+	orig := append([]byte(nil), out...)
+	w := &vWriter{}
+	err := (&Minifier{}).Minify(nil, w, &vReader{b: out}, nil)
+	vReach("after-call")
+	vOutput("out", w.buf)
+	vAssert(err == nil, "accepted")
+	hasWith := false
+	for i := 0; i+5 <= len(orig); i++ {
+		if string(orig[i:i+5]) == "with(" {
+			hasWith = true
+		}
+	}
+	vAssume(hasWith)
+	// names bound in scopes of the with-function itself (not inside nested functions/methods without with)
+	for _, name := range []string{"vlong", "errlong", "ilong", "blong", "slong", "hlong", "Clong"} {
+		inSrc, inOut := jHasIdent(orig, name), jHasIdent(w.buf, name)
+		if inSrc {
+			vAssert(inOut, "every name in a function that contains with is emitted unchanged")
+		}
+	}
+	_, ok := jCollect(append([]byte(nil), w.buf...))
+	vAssert(ok, "output parses")
+	vReach("end")
+}
+
+func jHasIdent(b []byte, name string) bool {
+	for i := 0; i+len(name) <= len(b); i++ {
+		if string(b[i:i+len(name)]) == name {
+			return true
+		}
+	}
+	return false
 }
